@@ -8,7 +8,7 @@ CONSTANTS
   ModeSet = {"mock"}
   UseVcSet = {FALSE}
   TcpOnlySet <- MCQ_TcpOnly
-  TmoSet = {40, 500}
+  TmoSet = {40}
   Est = 30
   Outs = {"Data", "NX", "SF", "REF", "FE", "Err"}
   TcpOuts = {"Data"}
